@@ -6,7 +6,7 @@ if ! git diff --quiet; then echo "repo not clean"; exit 2; fi
 git apply "$PATCH" || { echo "patch does not apply"; exit 2; }
 for c in "$@"; do
   echo "== $c"
-  ( cd /verif && VERIF_EVIDENCE_DIR=/dev/shm/skvsim-seed-evidence timeout 1500 ./check "$c" quick 2>&1 | grep -v "^KNOWN-FINDING" | tail -4 | cut -c1-600 )
+  ( cd /verif && VERIF_REPLAY_DIR=/dev/shm/skvsim-seed-replay VERIF_EVIDENCE_DIR=/dev/shm/skvsim-seed-evidence timeout 1500 ./check "$c" quick 2>&1 | grep -v "^KNOWN-FINDING" | tail -4 | cut -c1-600 )
 done
 git -C /repo checkout -- . 
 git -C /repo status --short | head -3
